@@ -86,3 +86,28 @@ CONTRACTS["project:Project.run_scenarios"] = dict(
     schema=schema, make_env=_env_run_scens, call_stubs={"scenario.run": _ghost_scen_run},
     ensures=[("C09.exactly_the_active_scenarios_are_run_in_order_against_this_project", "result == ['result of first', 'result of last'] and len(RUNS) == 2 and RUNS[0][0] == 'first' and RUNS[1][0] == 'last' and RUNS[0][1] is self and RUNS[1][1] is self and RUNS[0][2] is False")],
     defined_props=["C09"])
+
+
+# ---- Result.__init__ (C20 / C13: a result is its finished model): the result keeps THE model it is given (no copy), the name of the parameter set that produced it and the
+# population names in model order; it is named after the parameter set unless a name is given
+def _env_result_init(name, with_parset=True):
+    def make(it):
+        from pyvc.interp import PyObjV
+        from pyvc import source
+
+        mm = source.load("model")
+        model = PyObjV("Model", mm, {"pops": [PyObjV("Population", mm, {"name": n}) for n in ("adults", "children")]})
+        ps = PyObjV("ParameterSet", source.load("parameters"), {"name": "calibrated"}) if with_parset else None
+        return {"self": PyObjV("Result", source.load("results"), {}), "model": model, "parset": ps, "name": name, "MODEL": model, "NAMED": []}
+
+    return make
+
+
+_res_stubs = {"NamedItem.__init__": (lambda it, obj, name=None: (obj.fields.__setitem__("name", name), it.live_env["NAMED"].append(name))[1]), "sc.uuid": (lambda it: "UID")}
+_res_globals = {"version": "VERSION", "gitinfo": "GITINFO"}
+for _tag, _name, _wp, _want_name, _want_ps in (("named_after_its_parameter_set", None, True, "calibrated", "calibrated"), ("with_its_own_name", "scenario A", True, "scenario A", "calibrated"), ("without_a_parameter_set", None, False, None, None)):
+    CONTRACTS["results:Result.__init__#%s" % _tag] = dict(
+        schema=schema, make_env=(lambda n, w: (lambda it: dict(_env_result_init(n, w)(it), VERSION="1.0", GITINFO="git")))(_name, _wp), call_stubs=_res_stubs, stubs=_res_globals,
+        ensures=[("C20+C13.the_result_keeps_the_model_it_is_given_and_the_population_names_in_model_order", "self.model is MODEL and self.pop_names == ['adults', 'children']"),
+                 ("C20+C13.it_records_the_parameter_set_and_is_named_after_it_unless_named", "self.name == %r and self.parset_name == %r and NAMED == [%r]" % (_want_name, _want_ps, _want_name))],
+        defined_props=["C20", "C13"])
